@@ -25,6 +25,8 @@ type Env struct {
 	vars    map[string]cval
 	pkgPath string
 	loop    *loopInfo
+	atBlock *ssa.BasicBlock // program point for resolving reassigned variables (at-call clauses)
+	atIdx   int
 	qn      *int
 	bound   map[string]bool // quantifier-bound names (shadow program variables)
 }
@@ -135,6 +137,10 @@ func (e *Env) lookupIdent(name string) (cval, bool, error) {
 	}
 	if e.fr != nil && e.loop != nil {
 		if v, ok := e.fr.lookupCurrent(name, e.st, e.loop); ok {
+			return v, true, nil
+		}
+	} else if e.fr != nil && e.atBlock != nil {
+		if v, ok := e.fr.lookupAt(name, e.st, e.atBlock, e.atIdx); ok {
 			return v, true, nil
 		}
 	}
@@ -297,6 +303,14 @@ func (e *Env) eval(x Expr) (cval, error) {
 func (e *Env) evalAddr(x Expr) (T, types.Type, bool, error) {
 	c := e.c
 	switch n := x.(type) {
+	case *EIdent:
+		// an address-taken local variable
+		if _, isParam := e.vars[n.Name]; e.fr != nil && !e.bound[n.Name] && !isParam {
+			if a := e.fr.allocNamed(n.Name, e.loop, e.atBlock); a != nil {
+				return e.fr.vals[a], deref(a.Type()), true, nil
+			}
+		}
+		return T{}, nil, false, nil
 	case *EDeref:
 		p, err := e.eval(n.X)
 		if err != nil {
@@ -537,6 +551,7 @@ func (e *Env) evalCall(n *ECall) (cval, error) {
 		}
 		oe := e.with(e.old)
 		oe.loop = nil // identifiers denote entry values inside old()
+		oe.atBlock = nil
 		return oe.eval(n.Args[0])
 	case "len", "cap":
 		if err := need(1); err != nil {
@@ -604,6 +619,24 @@ func (e *Env) evalCall(n *ECall) (cval, error) {
 			return cval{}, err
 		}
 		return cval{t: And(Eq(IsNilIface(a.t), IsNilIface(b.t)), Implies(Not(IsNilIface(a.t)), Eq(ITyp(a.t), ITyp(b.t)))), typ: boolT}, nil
+	case "private":
+		// the object belongs to this activation: no callee can reach it
+		if err := need(1); err != nil {
+			return cval{}, err
+		}
+		v, err := e.eval(n.Args[0])
+		if err != nil {
+			return cval{}, err
+		}
+		r := v.t
+		if r.Sort == "Slice" {
+			r = SArr(r)
+		}
+		if r.Sort != "Ref" {
+			return cval{}, fmt.Errorf("private() of %s", r.Sort)
+		}
+		c.R.Heap(HPriv, ArraySort("Ref", "Bool"))
+		return cval{t: Select(c.getHeap(e.st, HPriv), c.rroot(r)), typ: boolT}, nil
 	case "allocated":
 		if err := need(1); err != nil {
 			return cval{}, err
@@ -936,15 +969,9 @@ func domDepth(b *ssa.BasicBlock) int {
 // loop li: the head's phi for it, else the closest dominating reference.
 func (fr *frame) lookupCurrent(name string, st *State, li *loopInfo) (cval, bool) {
 	// address-taken (heap) variables: their current content
-	for _, b := range fr.fn.Blocks {
-		for _, in := range b.Instrs {
-			if a, ok := in.(*ssa.Alloc); ok && a.Comment == name {
-				if v, ok := fr.vals[a]; ok {
-					et := deref(a.Type())
-					return cval{t: fr.c.load(st, v, et), typ: et}, true
-				}
-			}
-		}
+	if a := fr.allocNamed(name, li, nil); a != nil {
+		et := deref(a.Type())
+		return cval{t: fr.c.load(st, fr.vals[a], et), typ: et}, true
 	}
 	for _, in := range li.head.Instrs {
 		phi, ok := in.(*ssa.Phi)
@@ -1033,4 +1060,101 @@ func (fr *frame) lookupCurrent(name string, st *State, li *loopInfo) (cval, bool
 		}
 	}
 	return cval{}, false
+}
+
+// lookupAt returns the value a source variable holds just before instruction
+// idx of block blk: the closest dominating reference or phi.
+func (fr *frame) lookupAt(name string, st *State, blk *ssa.BasicBlock, idx int) (cval, bool) {
+	for _, b := range fr.fn.Blocks {
+		for _, in := range b.Instrs {
+			if a, ok := in.(*ssa.Alloc); ok && a.Comment == name {
+				if v, ok := fr.vals[a]; ok {
+					et := deref(a.Type())
+					return cval{t: fr.c.load(st, v, et), typ: et}, true
+				}
+			}
+		}
+	}
+	var best ssa.Value
+	bestDepth, bestIdx := -1, -1
+	for _, b := range fr.fn.Blocks {
+		if b != blk && !b.Dominates(blk) {
+			continue
+		}
+		d := domDepth(b)
+		for i, in := range b.Instrs {
+			if b == blk && i >= idx {
+				break
+			}
+			var v ssa.Value
+			switch x := in.(type) {
+			case *ssa.DebugRef:
+				if !x.IsAddr && x.Object() != nil && x.Object().Name() == name {
+					v = x.X
+				}
+			case *ssa.Phi:
+				if x.Comment == name {
+					v = x
+				}
+			}
+			if v == nil {
+				continue
+			}
+			if _, defined := fr.vals[v]; !defined {
+				if _, isC := v.(*ssa.Const); !isC {
+					if _, isP := v.(*ssa.Parameter); !isP {
+						continue
+					}
+				}
+			}
+			_, vConst := v.(*ssa.Const)
+			_, bConst := best.(*ssa.Const)
+			if best != nil && vConst && !bConst && d <= bestDepth {
+				continue
+			}
+			if best == nil || d > bestDepth || (d == bestDepth && i > bestIdx) {
+				best, bestDepth, bestIdx = v, d, i
+			}
+		}
+	}
+	if best == nil {
+		return cval{}, false
+	}
+	return cval{t: fr.val(best), typ: best.Type()}, true
+}
+
+// allocNamed picks the address-taken local variable called name that is in
+// scope at the loop (or program point): among same-named variables the one
+// referenced inside the loop / in a block dominating the point wins.
+func (fr *frame) allocNamed(name string, li *loopInfo, at *ssa.BasicBlock) *ssa.Alloc {
+	var first, scoped *ssa.Alloc
+	for _, b := range fr.fn.Blocks {
+		for _, in := range b.Instrs {
+			if a, ok := in.(*ssa.Alloc); ok && a.Comment == name {
+				if _, defined := fr.vals[a]; !defined {
+					continue
+				}
+				if first == nil {
+					first = a
+				}
+				if refs := a.Referrers(); refs != nil {
+					for _, r := range *refs {
+						rb := r.Block()
+						if rb == nil {
+							continue
+						}
+						if (li != nil && li.blocks[rb]) || (at != nil && (rb == at || at.Dominates(rb))) {
+							if scoped == nil || a.Block().Dominates(scoped.Block()) == false {
+								scoped = a
+							}
+						}
+					}
+				}
+			}
+		}
+	}
+	if scoped != nil {
+		return scoped
+	}
+	return first
 }
